@@ -492,7 +492,7 @@ func judge(c *Case, e Expect, res *Result, cr *caseRes, evs []destEvent, own map
 			if !seenBad[ev.Dest.String()] {
 				seenBad[ev.Dest.String()] = true
 				add("dest-redirected-to-ignored-socks5", c.formKey(), "%s(%s socket of this upstream) went to the socks5 proxy %s (%s); socks5 is documented as not implemented for %s upstreams, the configured destination is %v",
-					ev.Syscall, ev.Sock, ev.Dest, socksOrigin(c), schemeName(c.Scheme), e.Dests)
+					ev.Syscall, ev.Sock, ev.Dest, socksOrigin(c), schemeWords(c.Scheme), e.Dests)
 			}
 			continue
 		}
@@ -548,7 +548,7 @@ func judge(c *Case, e Expect, res *Result, cr *caseRes, evs []destEvent, own map
 			// a request at the decoy proxy of a scheme that ignores socks5
 			if own["STREAM/"+strconv.Itoa(so.RemotePort)] {
 				add("dest-redirected-to-ignored-socks5", c.formKey(), "the socks5 proxy %s (%s) received CONNECT %q port %d from this upstream's source port %d; socks5 is documented as not implemented for %s upstreams",
-					cr.socksAddr, socksOrigin(c), so.Host, so.Port, so.RemotePort, schemeName(c.Scheme))
+					cr.socksAddr, socksOrigin(c), so.Host, so.Port, so.RemotePort, schemeWords(c.Scheme))
 			} else {
 				rep.Count("decoy_proxy_requests_of_foreign_origin_ignored", 1)
 			}
@@ -707,6 +707,13 @@ func judge(c *Case, e Expect, res *Result, cr *caseRes, evs []destEvent, own map
 // skipNames: members of forward groups in which some member's connections went to
 // a foreign destination.
 var skipNames = map[int]bool{}
+
+func schemeWords(s string) string {
+	if s == "" {
+		return "udp (no scheme written)"
+	}
+	return s
+}
 
 func socksOrigin(c *Case) string {
 	if c.Socks5Opt == "global" {
@@ -943,7 +950,7 @@ func evaluate(p *parent, tr *traceResult) {
 		}
 		if ev.Mark >= groupMarkBase {
 			// a socket carrying the plugin-global so_mark of a forward group
-			if id, ok := resolveGroupMark(p, ev.Mark-groupMarkBase, ev.Dest); ok {
+			if id, ok := resolveGroupMark(p, ev.Mark-groupMarkBase, ev.Dest, ev.Sock); ok {
 				byCase[id] = append(byCase[id], ev)
 				rep.Count("trace_dest_attributed_by_plugin_global_so_mark", 1)
 				continue
@@ -1143,6 +1150,11 @@ func evaluate(p *parent, tr *traceResult) {
 			seen := map[string]bool{}
 			for _, pr := range probs {
 				key := pr.class + "-" + sn + "-" + pr.form + c.siblingSuffix()
+				if c.GroupKind == "forward" || pr.class == "dest-redirected-to-ignored-socks5" {
+					// the failing dimension is the option set / the position on the
+					// plugin, not the written form of the address
+					key = pr.class + "-" + sn + c.siblingSuffix()
+				}
 				if seen[key] {
 					continue
 				}
@@ -1175,7 +1187,7 @@ func evaluate(p *parent, tr *traceResult) {
 			"sibling_forward_later_members_judged", "forward_members_observed", "forward_members_option_absent_after_sibling_with_option",
 			"forward_members_inheriting_plugin_global_option_observed", "option_singles_observed",
 			"ignored_socks5_upstreams_observed_going_direct", "ignored_socks5_udp_tcp_fallback_observed_direct",
-			"alias_through_option_upstreams_observed", "trace_dest_attributed_by_plugin_global_so_mark", "sibling_same-host_later_members_judged", "unhonourable_address_rejected", "handshake_ok_ip_san_only", "handshake_ok_dns_san_only", "clienthello_sni_equals_expected"}
+			"alias_through_option_upstreams_observed", "trace_dest_attributed_by_plugin_global_so_mark", "bootstrap_questions_at_plugin_global_server", "sibling_same-host_later_members_judged", "unhonourable_address_rejected", "handshake_ok_ip_san_only", "handshake_ok_dns_san_only", "clienthello_sni_equals_expected"}
 		sort.Strings(need)
 		for _, k := range need {
 			if rep.Get(k) == 0 {
